@@ -254,16 +254,21 @@ def _is_header_switch(b, h, x):
 def r6_stake_commitment(ctx):
     r = ctx.rule("R6", "pre_tip911 inserts hash(stdcode(txhash)) → stdcode(doc) for every stake into an empty tree")
     b = ctx.body("tip911_stakeset::StakeSet::pre_tip911", r)
-    loops = q.loop_with_source(b, lambda s: True)
-    srcs = [sig(l[3]) for l in loops]
-    r.check(srcs == ["HashMap::iter($1.stakes)"], "loop", "loops over all of self.stakes", "loops over %s" % srcs, "%s:%s" % (b.file, b.line))
-    ins = q.calls_to(b, "Tree::insert")
-    r.check(len(ins) == 1, "insert", "one insert per stake", "%d inserts" % len(ins))
-    for bi, t in ins:
-        e = b.rec_call(t, bi)
-        el = "elem(HashMap::iter($1.stakes))"
-        r.check(sig(e[2][1]) == "tmelcrypt::hash_single(StdcodeSerializeExt::stdcode(%s.0)).0" % el, "key", "key = hash(stdcode(txhash))", "key = %s" % sig(e[2][1]), b.where(bi))
-        r.check(sig(e[2][2]) == "StdcodeSerializeExt::stdcode(%s.1)" % el, "value", "value = stdcode(doc)", "value = %s" % sig(e[2][2]), b.where(bi))
+    # one tree insert per stake: in a `for` loop over self.stakes, or in a closure handed to for_each over it
+    SRC = "HashMap::iter($1.stakes)"
+    sites = [(c, bi, c.rec_call(t, bi)) for c in ctx.prog.all_nested(b) for bi, t in q.calls_to(c, "Tree::insert")]
+    r.check(len(sites) == 1, "insert", "one insert per stake", "%d inserts" % len(sites))
+    for c, bi, e in sites:
+        if c is b:
+            loops = [l for l in q.loop_with_source(b, lambda s_: True) if bi in l[1]]
+            r.check([sig(l[3]) for l in loops] == [SRC], "loop", "loops over all of self.stakes", "the insert sits in loops over %s" % [sig(l[3]) for l in loops], "%s:%s" % (b.file, b.line))
+            el0, el1 = "elem(%s).0" % SRC, "elem(%s).1" % SRC
+        else:
+            fe = [x for b2, x in q.call_exprs(b, "for_each") if x[2][1][0] == "closure" and x[2][1][1] == c.nname]
+            r.check(len(fe) == 1 and sig(mir.strip(fe[0][2][0])) == SRC, "loop", "for_each over all of self.stakes", "the insert sits in a closure that is not for_each over self.stakes (%s)" % [sig(x)[:80] for x in fe])
+            el0, el1 = "$2.0", "$2.1"
+        r.check(sig(e[2][1]) == "tmelcrypt::hash_single(StdcodeSerializeExt::stdcode(%s)).0" % el0, "key", "key = hash(stdcode(txhash))", "key = %s" % sig(e[2][1]), c.where(bi))
+        r.check(sig(e[2][2]) == "StdcodeSerializeExt::stdcode(%s)" % el1, "value", "value = stdcode(doc)", "value = %s" % sig(e[2][2]), c.where(bi))
     defs = q.var_def_exprs(b, "tree")
     s = [sig(d[1]) for d in defs]
     r.check(len(s) == 1 and "get_tree(Database::new(" in s[0] and ("[0; 32]" in s[0] or "default" in s[0].lower().split("get_tree(")[-1]), "empty-tree", "starts from the empty tree", "tree starts as %s" % s)
